@@ -175,6 +175,9 @@ func Yield(tag string) { runtime.Gosched() }
 func Quiesce() { time.Sleep(150 * time.Millisecond) }
 func Threads() {}
 
+// Hook replaces a repository function by a harness function inside the engine only (no native effect).
+func Hook(name string, f interface{}) {}
+
 // SetClock pins the engine's clock stub; natively the real clock runs.
 func SetClock(sec, nsec, stepNs int64) {}
 func ClockYields(on bool)              {}
